@@ -133,9 +133,12 @@ impl Vm {
             // The VPushAcc opcode represents a primitive instruction for pushing an an element in
             // %acc on to the vector at the top of the stack.
             OpCode::VPushAcc => {
-                let vector_ptr = self.heap.get(self.stack.pop()?);
-                let vector = vector_ptr.as_vector()?;
-                vector.push(self.acc.clone());
+                // %acc keeps the reference to the vector: a dereferenced vector in %acc
+                // (and from there in a global or environment slot) is not a root path
+                // for the collector, which would reclaim the elements.
+                let vector_ptr = self.stack.pop()?.clone();
+                let vector = self.heap.get(&vector_ptr);
+                vector.as_vector()?.push(self.acc.clone());
                 self.acc = vector_ptr;
             }
 
